@@ -27,7 +27,15 @@ integers is a valid schedule; when the list is exhausted the lowest runnable tid
 model's run_model does the same).  Accesses made by threads the scheduler does not know (the
 harness main thread before/after `run`) are performed directly and not recorded.
 No runnable thread while some are unfinished = deadlock: reported, all threads are released
-with SchedAbort, nothing hangs; a wall-clock guard does the same.
+with SchedAbort, nothing hangs; a wall-clock guard does the same (and so does a callable
+schedule that returns None, or raises).  `s.before_abort` (callable) runs before the threads
+of an abandoned run are released, e.g. to snapshot the state at the deadlock.
+Blocking accesses (lock acquire, Event.wait() without time-out, Thread.join()) are simply not
+runnable until they can succeed; lock acquisition time-outs are modelled as blocking; a timed
+Event.wait may return whenever it is scheduled (its result is the flag at that moment).
+list(deque) is ONE access (`<name>.list`), as in CPython.  For other modules (machine.py,
+clock.py) pass their module object to `patched`, their class and attribute names to
+`shared_attrs`, and replace container fields by `s.deque(name)` / `s.dict(name)`.
 """
 import collections
 import contextlib
